@@ -9,7 +9,7 @@ struct BbHarness : Harness {
     std::vector<std::string> props() const override { return {"C18"}; }
     std::vector<std::string> probes(const std::string &) const override {
         return {"rewind_partial", "rewind_fully_consumed", "add_exactly_fills", "add_refused", "consume_refused", "consume_at_most_clipped",
-                "invalid_setup_null_memory", "invalid_setup_zero_size", "invalid_setup_used_gt_size", "invalid_setup_offset_gt_used", "count_beyond_any_block", "buffer_of_64k_octets_or_more", "buffer_from_static_initialiser", "invalid_setup_names_other_memory", "added_octets_alias_the_buffer_object"};
+                "invalid_setup_null_memory", "invalid_setup_zero_size", "invalid_setup_used_gt_size", "invalid_setup_offset_gt_used", "count_beyond_any_block", "buffer_of_64k_octets_or_more", "buffer_from_static_initialiser", "invalid_setup_names_other_memory", "added_octets_alias_the_buffer_object", "object_nulled"};
     }
     uint64_t runs(const std::string &, const Tier &t) const override { return t.thorough() ? 6000000 : 1500000; }
 
@@ -44,7 +44,7 @@ struct BbHarness : Harness {
         int nops = (int)r.range(1, t.thorough() ? (size > 16 ? 400 : 60) : 40);
         // swarm: task weights
         unsigned wp = 1 + (unsigned)r.below(4), wc = 1 + (unsigned)r.below(4), wh = (unsigned)r.below(3);
-        static const std::vector<std::string> HK = {"rewind", "rewind", "rewind", "reset", "clear", "repeat", "set", "use", "space", "badset"};
+        static const std::vector<std::string> HK = {"rewind", "rewind", "rewind", "reset", "clear", "repeat", "set", "use", "space", "badset", "nullbuf"};
         std::vector<std::string> hk;
         for (auto &h : HK) if (r.chance(2, 3)) hk.push_back(h);
         if (hk.empty()) hk.push_back("rewind");
@@ -226,6 +226,16 @@ struct BbHarness : Harness {
                 added.assign(img.begin(), img.begin() + (long)mused); consumed.assign(img.begin(), img.begin() + (long)moff);
                 check("set", false, before, bs, bu, bo);
                 if (!bytes_eq(blk.p, before.data(), (size_t)bsize)) c.fail("bounds.set", "set-up modified memory");
+            } else if (op == "nullbuf") {
+                // byte_buffer_null() on a copy of the object: the copy designates no memory at all afterwards, the buffer itself is untouched
+                ByteBuffer t = b; byte_buffer_null(&t);
+                c.ev(EV_API, 8, 0, 0); COUNT("probe.object_nulled");
+                if (t.data != nullptr || t.size != 0 || t.used != 0 || t.offset != 0) c.fail("fields.null", "byte_buffer_null left data %s size=%zu used=%zu offset=%zu", t.data ? "set" : "null", t.size, t.used, t.offset);
+                if (byte_buffer_rest(&t) != 0 || byte_buffer_avail(&t) != 0) c.fail("observers.null", "a nulled buffer reports %zu unread / %zu free octets", byte_buffer_rest(&t), byte_buffer_avail(&t));
+                unsigned char one = 0x5a; unsigned char out1 = 0;
+                if (byte_buffer_add(&t, &one, 1) != -ENOMEM) c.fail("result.null", "adding to a nulled buffer did not fail with -ENOMEM");
+                if (byte_buffer_consume(&t, &out1, 1) != -ENODATA) c.fail("result.null", "consuming from a nulled buffer did not fail with -ENODATA");
+                check("nullbuf", true, before, bs, bu, bo);
             } else if (op == "badset") {
                 int kind = (int)(o.geti("kind") & 7);
                 int rc;
